@@ -107,7 +107,8 @@ Definition m_sfile2 (d : byte) (t : table) :=
   let ft := ftab t in let pt := ptab ft in m_sfile_gen (F_tab ft) (P_tab pt) d t.
 Definition extra_bits2 (ft pt : tab3) (d : byte) (t : table) : Z :=
   (if kf_leading_ws_after_numeric d t then 4 else 0)
-  + (if in_scope d t && negb (fcontract_b (F_tab ft) (P_tab pt) t) then 8 else 0).
+  + (if in_scope d t && negb (fcontract_b (F_tab ft) (P_tab pt) t) then 8 else 0)
+  + (if kf_float_print_overflow (F_tab ft) (P_tab pt) t then 16 else 0).
 Definition v_recfile2 (d : byte) (t : table) (text : list byte) (out : result table) : Z :=
   let ft := ftab t in let pt := ptab ft in
   let m := m_recfile_gen (F_tab ft) (P_tab pt) d t in
